@@ -196,10 +196,22 @@ def check_props_file(prop: str, relpath=None, timeout=600):
 class CoqEval:
     """Evaluate model expressions inside Coq (vm_compute), in parallel shards."""
 
-    def __init__(self, imports: str, workdir: str):
+    def __init__(self, imports: str, workdir: str, ctx=None):
         self.imports = imports
         self.workdir = workdir
         self.n = 0
+        self.ctx = ctx
+
+    def bools(self, exprs, **kw):
+        """failing indices; when the obligations of this run are already broken (reported), a model
+        that no longer compiles cannot be evaluated: the oracle part of the check still runs"""
+        try:
+            return self._bools(exprs, **kw)
+        except CoqError as ex:
+            if self.ctx is not None and self.ctx.obligations_broken:
+                self.ctx.note("model not evaluated (obligations broken): %s" % str(ex)[:200])
+                return []
+            raise
 
     def _run_files(self, files, timeout):
         procs = []
@@ -220,7 +232,7 @@ class CoqEval:
             results[f] = (p.returncode, out)
         return results
 
-    def bools(self, exprs, shard=300, timeout=600, extra=""):
+    def _bools(self, exprs, shard=300, timeout=600, extra=""):
         """exprs: list of Coq boolean expressions.  Returns sorted list of failing indices."""
         files = []
         for k in range(0, len(exprs), shard):
@@ -317,6 +329,7 @@ class Ctx:
         self._replay_n = 0
         self.findings = load_findings()
         self.obligation_names: list[str] = []
+        self.obligations_broken = False
         self.extra: dict = {}
 
     # -- bookkeeping
@@ -333,7 +346,7 @@ class Ctx:
             self.cov["samples"].append(sample)
 
     def coq(self, imports):
-        return CoqEval(imports, self.workdir)
+        return CoqEval(imports, self.workdir, self)
 
     # -- findings
     def report(self, sig: str, what: str, replay: dict, found_input=True):
@@ -420,6 +433,7 @@ class Ctx:
         self.cov["checker_cmd"] = "cd /verif/coq && make && coqc -Q theories FV " + " ".join(files)
         self.extra["axioms"] = sorted(axioms)
         if failed:
+            self.obligations_broken = True
             found = None
             if search is not None:
                 try:
